@@ -7,52 +7,6 @@ Import ListNotations.
 Open Scope N_scope.
 
 (* ------------------------------------------------------------------ *)
-(** * Additional checkable hypotheses
-
-    [image_wf] alone does not imply the recovery theorems (see the
-    counterexamples at the end of this file); these predicates close the gaps. *)
-
-Definition opt_eqb (a b : option N) : bool :=
-  match a, b with
-  | None, None => true
-  | Some x, Some y => x =? y
-  | _, _ => false
-  end.
-
-(** Records without a meaningful LSN ([KOther]) do not interfere with the undo
-    walk: none carries an unfinished transaction's id, and if the LSN field of
-    one coincides with the LSN of an unfinished transaction's record, that
-    record has no page and the same prevLSN (so that finding the wrong one is
-    harmless). *)
-Definition others_ok (l : list lrec) : bool :=
-  forallb (fun r => has_lsn (l_kind r) ||
-     (negb (memN (l_txn r) (losers l)) &&
-      forallb (fun r' => negb (has_lsn (l_kind r') && (l_lsn r' =? l_lsn r) && memN (l_txn r') (losers l)) ||
-                         (match page_of (l_kind r') with None => true | Some _ => false end &&
-                          opt_eqb (l_prev r') (l_prev r))) l)) l.
-
-(** A ROLLBACKDELETE record of an unfinished transaction found its row delete-marked
-    (it is the inverse of the transaction's own MARKDELETE). *)
-Fixpoint rollbacks_marked_from (ls : list N) (l : list lrec) (ps : pages) : bool :=
-  match l with
-  | [] => true
-  | r :: rest =>
-      (match l_kind r with
-       | KRollback p s =>
-           negb (memN (l_txn r) ls) ||
-           match a_at (pslots (get_page ps p)) s with Some (Some (_, true)) => true | _ => false end
-       | _ => true
-       end) && rollbacks_marked_from ls rest (do_rec ps r)
-  end.
-Definition loser_rollbacks_marked (l : list lrec) : bool := rollbacks_marked_from (losers l) l [].
-
-(** Updates of unfinished transactions do not shrink rows (forward updates of the engine
-    never do: ErrRollbackDifficult); then the undo of an update always fits. *)
-Definition loser_updates_grow (l : list lrec) : bool :=
-  forallb (fun r => negb (memN (l_txn r) (losers l)) ||
-                    match l_kind r with KUpdate _ _ old new => blen old <=? blen new | _ => true end) l.
-
-(* ------------------------------------------------------------------ *)
 (** * List facts *)
 
 Lemma filter_rev {A} (f : A -> bool) : forall l, filter f (rev l) = rev (filter f l).
@@ -208,87 +162,55 @@ Proof.
     split; reflexivity.
 Qed.
 
-Lemma last_of_eq l t : (forall r, In r l -> l_txn r = t -> has_lsn (l_kind r) = true) ->
-  last_of l t = hd_lsn (rev (txn_recs l t)).
+Lemma last_of_eq l t : last_of l t = hd_lsn (rev (txn_recs l t)).
 Proof.
-  intros H. unfold last_of. rewrite filter_rev.
-  replace (filter (fun r => l_txn r =? t) l) with (txn_recs l t); [reflexivity|].
-  unfold txn_recs. apply filter_ext_in. intros r Hr.
-  destruct (N.eqb_spec (l_txn r) t) as [E|E]; [|apply andb_false_r].
-  rewrite (H r Hr E). reflexivity.
+  unfold last_of. rewrite filter_rev.
+  replace (filter (fun r => (l_txn r =? t) && match l_kind r with KOther => false | _ => true end) l)
+    with (txn_recs l t); [reflexivity|].
+  unfold txn_recs. apply filter_ext. intros r. unfold has_lsn. apply andb_comm.
 Qed.
 
-(** consequences of [others_ok] *)
-Lemma others_ok_txn l r : others_ok l = true -> In r l -> memN (l_txn r) (losers l) = true ->
-  has_lsn (l_kind r) = true.
+Lemma find_good_loser l r : log_ok l = true -> In r l ->
+  has_lsn (l_kind r) = true -> find_good l r.
 Proof.
-  intros H Hr Hm. unfold others_ok in H. rewrite forallb_forall in H. specialize (H r Hr).
-  destruct (has_lsn (l_kind r)); [reflexivity|]. cbn [orb] in H. rewrite Hm in H. discriminate.
-Qed.
-
-Lemma others_ok_lsn l r r' : others_ok l = true -> In r l -> In r' l ->
-  has_lsn (l_kind r) = false -> has_lsn (l_kind r') = true -> l_lsn r' = l_lsn r ->
-  memN (l_txn r') (losers l) = true ->
-  page_of (l_kind r') = None /\ l_prev r' = l_prev r.
-Proof.
-  intros H Hr Hr' Hh Hh' El Hm. unfold others_ok in H. rewrite forallb_forall in H. specialize (H r Hr).
-  rewrite Hh in H. cbn [orb] in H. apply andb_true_iff in H. destruct H as [_ H].
-  rewrite forallb_forall in H. specialize (H r' Hr').
-  rewrite Hh', Hm, El, N.eqb_refl in H. cbn [andb negb orb] in H.
-  apply andb_true_iff in H. destruct H as [H1 H2].
-  split.
-  - destruct (page_of (l_kind r')); [discriminate | reflexivity].
-  - destruct (l_prev r') as [a|], (l_prev r) as [b|]; cbn in H2; try discriminate; [|reflexivity].
-    apply N.eqb_eq in H2. subst. reflexivity.
-Qed.
-
-Lemma find_good_loser l r : log_ok l = true -> others_ok l = true -> In r l ->
-  has_lsn (l_kind r) = true -> memN (l_txn r) (losers l) = true -> find_good l r.
-Proof.
-  intros Hl Ho Hr Hh Hm. unfold find_good, find_lsn.
-  destruct (find (fun r0 => l_lsn r0 =? l_lsn r) l) as [r'|] eqn:Ef.
-  - apply find_some in Ef. destruct Ef as [Hr' El]. apply N.eqb_eq in El.
+  intros Hl Hr Hh. unfold find_good, find_lsn.
+  destruct (find (fun r0 => match l_kind r0 with KOther => false | _ => l_lsn r0 =? l_lsn r end) l) as [r'|] eqn:Ef.
+  - apply find_some in Ef. destruct Ef as [Hr' El].
+    assert (Eh' : has_lsn (l_kind r') = true) by (destruct (l_kind r'); try reflexivity; discriminate).
+    assert (El' : l_lsn r' = l_lsn r) by (destruct (l_kind r'); try discriminate; apply N.eqb_eq; exact El).
     exists r'. split; [reflexivity|].
-    destruct (has_lsn (l_kind r')) eqn:Eh'.
-    + destruct (log_lsns _ _ _ Hl) as [_ U]. rewrite (U r' r Hr' Hr Eh' Hh El).
-      split; [reflexivity|]. intros ps. split; reflexivity.
-    + destruct (others_ok_lsn l r' r Ho Hr' Hr Eh' Hh (eq_sym El) Hm) as [Hp Hprev].
-      split; [symmetry; exact Hprev|]. intros ps.
-      assert (Hp' : page_of (l_kind r') = None) by (destruct (l_kind r'); cbn in Eh'; try discriminate; reflexivity).
-      rewrite !undo_rec_nopage, !undo_out_nopage by assumption. split; reflexivity.
-  - exfalso. apply (find_none _ _ Ef) in Hr. rewrite N.eqb_refl in Hr. discriminate.
+    destruct (log_lsns _ _ _ Hl) as [_ U]. rewrite (U r' r Hr' Hr Eh' Hh El').
+    split; [reflexivity|]. intros ps. split; reflexivity.
+  - exfalso. apply (find_none _ _ Ef) in Hr. rewrite N.eqb_refl in Hr.
+    destruct (l_kind r); discriminate.
 Qed.
 
 (** the undo of one unfinished transaction is the undo of its records, last first *)
-Lemma undo_chain_loser l t ps : log_ok l = true -> chains_ok l = true -> others_ok l = true ->
-  In t (losers l) ->
+Lemma undo_chain_loser l t ps : log_ok l = true -> chains_ok l = true ->
   undo_chain (length l) l ps (last_of l t) = fold_left undo_rec (rev (txn_recs l t)) ps /\
   undo_chain_outs (length l) l ps (last_of l t) = undo_list_outs (rev (txn_recs l t)) ps.
 Proof.
-  intros Hl Hc Ho Ht. apply memN_In in Ht.
-  rewrite last_of_eq.
-  - apply walk.
-    + apply chain_rev. apply (chains_struct t l [] Hc).
-    + intros r Hr. apply in_rev in Hr. unfold txn_recs in Hr. apply filter_In in Hr.
-      destruct Hr as [Hr Hf]. apply andb_true_iff in Hf. destruct Hf as [Hh Et]. apply N.eqb_eq in Et.
-      apply find_good_loser; try assumption. rewrite Et. exact Ht.
-    + rewrite rev_length. apply filter_length.
-  - intros r Hr Et. apply (others_ok_txn l r Ho Hr). rewrite Et. exact Ht.
+  intros Hl Hc. rewrite last_of_eq. apply walk.
+  - apply chain_rev. apply (chains_struct t l [] Hc).
+  - intros r Hr. apply in_rev in Hr. unfold txn_recs in Hr. apply filter_In in Hr.
+    destruct Hr as [Hr Hf]. apply andb_true_iff in Hf. destruct Hf as [Hh Et].
+    apply find_good_loser; assumption.
+  - rewrite rev_length. apply filter_length.
 Qed.
 
 Definition undo_seq (l : list lrec) (order : list N) : list lrec :=
   flat_map (fun t => rev (txn_recs l t)) order.
 
-Lemma undo_all_seq l : log_ok l = true -> chains_ok l = true -> others_ok l = true ->
-  forall order ps, (forall t, In t order -> In t (losers l)) ->
+Lemma undo_all_seq l : log_ok l = true -> chains_ok l = true ->
+  forall order ps,
   undo_all l order ps = fold_left undo_rec (undo_seq l order) ps /\
   undo_all_outs l order ps = undo_list_outs (undo_seq l order) ps.
 Proof.
-  intros Hl Hc Ho. induction order as [|t order IH]; intros ps Hin; [split; reflexivity|].
-  destruct (undo_chain_loser l t ps Hl Hc Ho (Hin t (or_introl eq_refl))) as [E1 E2].
+  intros Hl Hc. induction order as [|t order IH]; intros ps; [split; reflexivity|].
+  destruct (undo_chain_loser l t ps Hl Hc) as [E1 E2].
   unfold undo_all, undo_seq. cbn [fold_left flat_map undo_all_outs]. fold (undo_seq l order).
   rewrite fold_left_app, undo_list_outs_app, E1, E2.
-  destruct (IH (fold_left undo_rec (rev (txn_recs l t)) ps) (fun x Hx => Hin x (or_intror Hx))) as [IH1 IH2].
+  destruct (IH (fold_left undo_rec (rev (txn_recs l t)) ps)) as [IH1 IH2].
   unfold undo_all in IH1. rewrite IH1, IH2. split; reflexivity.
 Qed.
 
@@ -372,7 +294,6 @@ Qed.
 
 Definition lpre (v : aentry) (k : rkind) : Prop :=
   match k with
-  | KRollback _ _ => exists b, v = Some (b, true)
   | KApply _ _ _ => False
   | _ => True
   end.
@@ -388,7 +309,7 @@ Proof.
   destruct k; cbn [spre lpre slot_step inv_kind]; intros H1 H2; try reflexivity; try contradiction.
   - subst v. reflexivity.
   - destruct H1 as [b ->]. reflexivity.
-  - destruct H2 as [b ->]. reflexivity.
+  - destruct H1 as [b ->]. reflexivity.
   - subst v. reflexivity.
 Qed.
 
@@ -581,55 +502,23 @@ Proof.
   rewrite Hm in H. unfold is_apply. destruct (l_kind r); try reflexivity. discriminate.
 Qed.
 
-Fixpoint lpre_from (ls : list N) (p s : N) (l : list lrec) (v : aentry) : Prop :=
-  match l with
-  | [] => True
-  | r :: rest => (on_slot p s r = true -> memN (l_txn r) ls = true -> lpre v (l_kind r)) /\
-                 lpre_from ls p s rest (sv_step p s v r)
-  end.
-
-Lemma lpre_from_app ls p s : forall l1 l2 v,
-  lpre_from ls p s (l1 ++ l2) v <-> lpre_from ls p s l1 v /\ lpre_from ls p s l2 (fold_left (sv_step p s) l1 v).
-Proof.
-  induction l1 as [|r l1 IH]; intros l2 v; cbn [app lpre_from fold_left]; [tauto|].
-  rewrite IH. tauto.
-Qed.
-
-Lemma lpre_replay ls p s : forall l ps last, log_ok_from l ps last = true ->
-  rollbacks_marked_from ls l ps = true ->
-  (forall r, In r l -> memN (l_txn r) ls = true -> is_apply r = false) ->
-  lpre_from ls p s l (page_val ps p s).
-Proof.
-  induction l as [|r l IH]; intros ps last Hl Hm Ha; [exact I|].
-  apply log_ok_from_cons in Hl. destruct Hl as (_ & H2 & H3).
-  cbn [rollbacks_marked_from] in Hm. apply andb_true_iff in Hm. destruct Hm as [Hm1 Hm2].
-  destruct (rec_step_slot ps r p s H2) as [_ G2].
-  cbn [lpre_from]. split.
-  - intros Ho Hls. specialize (Ha r (or_introl eq_refl) Hls). unfold is_apply in Ha.
-    apply on_slot_slot in Ho.
-    destruct (l_kind r) as [p' s' b|p' s'|p' s' b|p' s'|p' s' old new| | | |pv p'| |]; cbn [lpre]; try exact I; try discriminate.
-    cbn [slot_of] in Ho. inversion Ho; subst p' s'. rewrite Hls in Hm1. cbn [negb orb] in Hm1.
-    unfold page_val. destruct (a_at (pslots (get_page ps p)) s) as [[[b [|]]|]|]; try discriminate.
-    exists b. reflexivity.
-  - rewrite <- G2. apply (IH _ _ H3 Hm2). intros x Hx. apply Ha. right. exact Hx.
-Qed.
-
-(** a run of records in which only one transaction works on the slot and the page is not re-created *)
-Lemma spre_seq_of ls p s : forall m v,
+(** a run of records in which the page is not re-created and no record on the slot is an applied delete *)
+Lemma spre_seq_of p s : forall m v,
   (forall r, In r m -> is_newpage p r = false) ->
-  (forall r, In r m -> on_slot p s r = true -> memN (l_txn r) ls = true) ->
-  spre_from p s m v -> lpre_from ls p s m v ->
+  (forall r, In r m -> on_slot p s r = true -> is_apply r = false) ->
+  spre_from p s m v ->
   spre_seq v (map l_kind (filter (on_slot p s) m)).
 Proof.
-  induction m as [|r m IH]; intros v Hn Hl Hs Hp; [exact I|].
-  cbn [spre_from lpre_from] in Hs, Hp. destruct Hs as [Hs1 Hs2]. destruct Hp as [Hp1 Hp2].
-  rewrite sv_step_cases, (Hn r (or_introl eq_refl)) in Hs2, Hp2.
+  induction m as [|r m IH]; intros v Hn Hl Hs; [exact I|].
+  cbn [spre_from] in Hs. destruct Hs as [Hs1 Hs2].
+  rewrite sv_step_cases, (Hn r (or_introl eq_refl)) in Hs2.
   assert (Hn' : forall x, In x m -> is_newpage p x = false) by (intros x Hx; apply Hn; right; exact Hx).
-  assert (Hl' : forall x, In x m -> on_slot p s x = true -> memN (l_txn x) ls = true)
+  assert (Hl' : forall x, In x m -> on_slot p s x = true -> is_apply x = false)
     by (intros x Hx; apply Hl; right; exact Hx).
   cbn [filter]. destruct (on_slot p s r) eqn:Eo.
   - cbn [map spre_seq]. split; [apply Hs1; reflexivity|]. split.
-    + apply Hp1; [reflexivity|]. apply Hl; [left; reflexivity | exact Eo].
+    + specialize (Hl r (or_introl eq_refl) Eo). unfold is_apply in Hl.
+      destruct (l_kind r); cbn [lpre]; try exact I. discriminate.
     + apply IH; assumption.
   - apply IH; assumption.
 Qed.
@@ -642,9 +531,7 @@ Record undo_hyps (l : list lrec) : Prop := {
   uh_chains : chains_ok l = true;
   uh_strict : strict_ok l = true;
   uh_fresh : fresh_pages_ok l [] = true;
-  uh_noapply : no_loser_apply l = true;
-  uh_others : others_ok l = true;
-  uh_marked : loser_rollbacks_marked l = true
+  uh_noapply : no_loser_apply l = true
 }.
 
 Lemma undo_seq_noapply l order : no_loser_apply l = true ->
@@ -682,16 +569,13 @@ Lemma slot_owner l order p s : undo_hyps l -> Permutation order (losers l) ->
     spre_seq v0 (map l_kind B) /\
     v0 = committed_val l p s.
 Proof.
-  intros [Hl Hc Hst Hf Hna Ho Hmk] Hperm Eex.
+  intros [Hl Hc Hst Hf Hna] Hperm Eex.
   assert (Hin : forall t, In t order -> In t (losers l))
     by (intros t Ht; eapply Permutation_in; eassumption).
   assert (Hnd : NoDup order)
     by (eapply Permutation_NoDup; [apply Permutation_sym; exact Hperm | apply losers_NoDup]).
   destruct (fresh_ord p s l [] Hf) as [Hord _].
   destruct (replay_slot l [] None p s Hl) as [_ Hspre]. rewrite page_val_nil in Hspre.
-  assert (Hlpre : lpre_from (losers l) p s l None).
-  { rewrite <- (page_val_nil p s). apply (lpre_replay (losers l) p s l [] None Hl Hmk).
-    intros r Hr Hm. apply (no_loser_apply_spec l r Hna Hr Hm). }
   apply first_split in Eex. destruct Eex as (pre & r1 & post & El & Hr1 & Hpre).
   apply andb_true_iff in Hr1. destruct Hr1 as [Hs1 Hm1].
   set (t := l_txn r1).
@@ -735,14 +619,12 @@ Proof.
       specialize (Hpre x Hx). destruct (on_slot p s x); [|reflexivity].
       cbn [andb] in Hpre. rewrite Et in Hpre. fold t in Hm1. rewrite Hm1 in Hpre. discriminate.
   - rewrite slot_val_eq, El, fold_left_app. apply sv_fold_nonew. exact Hnn.
-  - assert (Hlpre' : lpre_from (losers l) p s (pre ++ r1 :: post) None) by (rewrite <- El; exact Hlpre).
-    clear Hlpre. rename Hlpre' into Hlpre.
-    rewrite El in Hspre. apply spre_from_app in Hspre. apply lpre_from_app in Hlpre.
-    destruct Hspre as [_ Hspre]. destruct Hlpre as [_ Hlpre].
-    rewrite <- slot_val_eq in Hspre, Hlpre.
-    apply (spre_seq_of (losers l) p s); try assumption.
-    intros r Hr Hsr. destruct Hr as [<-|Hr]; [exact Hm1|].
-    rewrite (Hpost1 r Hr Hsr). exact Hm1.
+  - rewrite El in Hspre. apply spre_from_app in Hspre. destruct Hspre as [_ Hspre].
+    rewrite <- slot_val_eq in Hspre.
+    apply (spre_seq_of p s); try assumption.
+    intros r Hr Hsr. apply (no_loser_apply_spec l r Hna).
+    + rewrite El. apply in_or_app. right. exact Hr.
+    + destruct Hr as [<-|Hr]; [exact Hm1|]. rewrite (Hpost1 r Hr Hsr). exact Hm1.
   - (* the committed value is the value before the owner's first record *)
     rewrite committed_val_eq. set (f := nonloser l).
     transitivity (slot_val (filter f pre) p s).
@@ -874,7 +756,7 @@ Proof.
     cbn [astep].
   - apply aval_some in Hv. rewrite Hv. reflexivity.
   - destruct H1 as [b ->]. apply aval_some in Hv. rewrite Hv. reflexivity.
-  - destruct H2 as [b ->]. apply aval_some in Hv. rewrite Hv. reflexivity.
+  - destruct H1 as [b ->]. apply aval_some in Hv. rewrite Hv. reflexivity.
   - apply aval_some in Hv. rewrite Hv. destruct Hu as [Hu1 Hu2].
     destruct (N.eqb_spec (blen old) 0) as [|_]; [contradiction|].
     destruct (N.ltb_spec (a_free a + blen new) (blen old)) as [Hlt|_]; [lia|].
@@ -968,20 +850,19 @@ Qed.
 
 Lemma image_wf_parts l disk : image_wf l disk = true ->
   log_ok l = true /\ chains_ok l = true /\ strict_ok l = true /\ fresh_pages_ok l [] = true /\
-  disk_ok l disk = true /\ no_loser_apply l = true.
+  disk_ok l disk = true /\ no_loser_apply l = true /\ loser_updates_grow l = true.
 Proof.
   unfold image_wf. intros H.
   repeat (apply andb_true_iff in H; let H' := fresh in destruct H as [H H']). tauto.
 Qed.
 
-(** C01 [redo_repeats_history], with the additional hypothesis that records with LSN 0
-    are page creations (false without it: see [redo_repeats_counterexample]) *)
+(** redo repeats history when records with LSN 0 are page creations ... *)
 Lemma redo_repeats_if_lsn0 : forall l disk, log_ok l = true -> lsn0_ok l = true -> disk_ok l disk = true ->
   forall p, get_page (redo l disk) p = get_page (replay l []) p.
 Proof. intros l disk Hl H0 Hd. apply (redo_repeats_lsn0 l disk Hl H0 Hd). Qed.
 
-(** the same, with [fresh_pages_ok] (part of [image_wf]) instead *)
-Lemma redo_repeats_fresh : forall l disk, log_ok l = true -> fresh_pages_ok l [] = true -> disk_ok l disk = true ->
+(** C01 [redo_repeats_history] (false without [fresh_pages_ok]: see [redo_repeats_counterexample]) *)
+Theorem redo_repeats : forall l disk, log_ok l = true -> fresh_pages_ok l [] = true -> disk_ok l disk = true ->
   forall p, get_page (redo l disk) p = get_page (replay l []) p.
 Proof. intros l disk Hl Hf Hd. apply redo_repeats_if_lsn0; try assumption. apply fresh_lsn0_ok; assumption. Qed.
 
@@ -989,79 +870,64 @@ Lemma redo_outs_ok : forall l disk, log_ok l = true -> lsn0_ok l = true -> disk_
   forallb out_ok (redo_outs l disk) = true.
 Proof. intros l disk Hl H0 Hd. apply (redo_repeats_lsn0 l disk Hl H0 Hd). Qed.
 
-Lemma image_undo_hyps l disk : image_wf l disk = true -> others_ok l = true ->
-  loser_rollbacks_marked l = true -> undo_hyps l.
+Lemma image_undo_hyps l disk : image_wf l disk = true -> undo_hyps l.
 Proof.
-  intros H Ho Hm. destruct (image_wf_parts _ _ H) as (H1 & H2 & H3 & H4 & H5 & H6).
+  intros H. destruct (image_wf_parts _ _ H) as (H1 & H2 & H3 & H4 & H5 & H6 & H7).
   constructor; assumption.
 Qed.
 
 Lemma redo_slot_val l disk p s : image_wf l disk = true ->
   page_val (redo l disk) p s = slot_val l p s.
 Proof.
-  intros H. destruct (image_wf_parts _ _ H) as (H1 & H2 & H3 & H4 & H5 & H6).
-  unfold page_val. rewrite (redo_repeats_fresh l disk H1 H4 H5). apply (replay_slot_val l p s H1).
+  intros H. destruct (image_wf_parts _ _ H) as (H1 & H2 & H3 & H4 & H5 & H6 & H7).
+  unfold page_val. rewrite (redo_repeats l disk H1 H4 H5). apply (replay_slot_val l p s H1).
 Qed.
 
-(** C01 [recovery_restores_committed_state] / C02 [atomicity], under the additional
-    hypotheses [others_ok], [loser_rollbacks_marked] and "every undo operation succeeds"
-    (the statement with [image_wf] alone is false: see the counterexamples below) *)
-Theorem recover_committed_if_undo_ok : forall l disk order, image_wf l disk = true ->
-  others_ok l = true -> loser_rollbacks_marked l = true ->
+(** every operation of the undo pass succeeds *)
+Theorem undo_ok : forall l disk order, image_wf l disk = true ->
   Permutation order (losers l) ->
-  forallb out_ok (undo_all_outs l order (redo l disk)) = true ->
-  forall p s, page_val (recover l order disk) p s = committed_val l p s.
+  forallb out_ok (undo_all_outs l order (redo l disk)) = true.
 Proof.
-  intros l disk order Hwf Ho Hm Hperm Hok p s.
-  assert (Hyp := image_undo_hyps l disk Hwf Ho Hm).
+  intros l disk order Hwf Hperm.
+  assert (Hyp := image_undo_hyps l disk Hwf).
   assert (Hin : forall t, In t order -> In t (losers l))
     by (intros t Ht; eapply Permutation_in; eassumption).
-  destruct (undo_all_seq l (uh_log l Hyp) (uh_chains l Hyp) Ho order (redo l disk) Hin) as [E1 E2].
+  destruct (undo_all_seq l (uh_log l Hyp) (uh_chains l Hyp) order (redo l disk)) as [_ E2].
+  rewrite E2. apply undo_outs_ok_grow; try assumption.
+  - apply (image_wf_parts _ _ Hwf).
+  - intros p s. apply redo_slot_val. exact Hwf.
+Qed.
+
+(** C01 [recovery_restores_committed_state] / C02 [atomicity] *)
+Theorem recover_committed : forall l disk order, image_wf l disk = true ->
+  Permutation order (losers l) ->
+  forall p s, page_val (recover l order disk) p s = committed_val l p s.
+Proof.
+  intros l disk order Hwf Hperm p s.
+  assert (Hyp := image_undo_hyps l disk Hwf).
+  assert (Hin : forall t, In t order -> In t (losers l))
+    by (intros t Ht; eapply Permutation_in; eassumption).
+  assert (Hok := undo_ok l disk order Hwf Hperm).
+  destruct (undo_all_seq l (uh_log l Hyp) (uh_chains l Hyp) order (redo l disk)) as [E1 E2].
   unfold recover. rewrite E1. rewrite E2 in Hok.
   apply undo_slot_committed; try assumption. apply redo_slot_val. exact Hwf.
 Qed.
 
-(** ... and with "updates of unfinished transactions do not shrink rows" instead of the
-    success of the undo operations, which then follows *)
-Theorem undo_ok_grow : forall l disk order, image_wf l disk = true ->
-  others_ok l = true -> loser_rollbacks_marked l = true -> loser_updates_grow l = true ->
+(** C01 [restart_succeeds] *)
+Theorem restart_ok : forall l disk order, image_wf l disk = true ->
   Permutation order (losers l) ->
-  forallb out_ok (undo_all_outs l order (redo l disk)) = true.
-Proof.
-  intros l disk order Hwf Ho Hm Hg Hperm.
-  assert (Hyp := image_undo_hyps l disk Hwf Ho Hm).
-  assert (Hin : forall t, In t order -> In t (losers l))
-    by (intros t Ht; eapply Permutation_in; eassumption).
-  destruct (undo_all_seq l (uh_log l Hyp) (uh_chains l Hyp) Ho order (redo l disk) Hin) as [_ E2].
-  rewrite E2. apply undo_outs_ok_grow; try assumption. intros p s. apply redo_slot_val. exact Hwf.
-Qed.
-
-Theorem recover_committed_grow : forall l disk order, image_wf l disk = true ->
-  others_ok l = true -> loser_rollbacks_marked l = true -> loser_updates_grow l = true ->
-  Permutation order (losers l) ->
-  forall p s, page_val (recover l order disk) p s = committed_val l p s.
-Proof.
-  intros l disk order Hwf Ho Hm Hg Hperm. apply recover_committed_if_undo_ok; try assumption.
-  apply undo_ok_grow; assumption.
-Qed.
-
-(** C01 [restart_succeeds]: the redo pass always succeeds; the undo pass under the extra hypotheses *)
-Theorem restart_ok_if_undo_ok : forall l disk order, image_wf l disk = true ->
-  forallb out_ok (undo_all_outs l order (redo l disk)) = true ->
   forallb out_ok (recover_outs l order disk) = true.
 Proof.
-  intros l disk order Hwf Hok. destruct (image_wf_parts _ _ Hwf) as (H1 & H2 & H3 & H4 & H5 & H6).
-  unfold recover_outs. rewrite forallb_app, Hok, andb_true_r.
+  intros l disk order Hwf Hperm. destruct (image_wf_parts _ _ Hwf) as (H1 & H2 & H3 & H4 & H5 & H6 & H7).
+  unfold recover_outs. rewrite forallb_app, (undo_ok l disk order Hwf Hperm), andb_true_r.
   apply redo_outs_ok; try assumption. apply fresh_lsn0_ok; assumption.
 Qed.
 
-Theorem restart_ok_grow : forall l disk order, image_wf l disk = true ->
-  others_ok l = true -> loser_rollbacks_marked l = true -> loser_updates_grow l = true ->
-  Permutation order (losers l) ->
-  forallb out_ok (recover_outs l order disk) = true.
+(** the redo pass alone always succeeds *)
+Theorem redo_pass_ok : forall l disk, image_wf l disk = true -> forallb out_ok (redo_outs l disk) = true.
 Proof.
-  intros l disk order Hwf Ho Hm Hg Hperm. apply restart_ok_if_undo_ok; [exact Hwf|].
-  apply undo_ok_grow; assumption.
+  intros l disk Hwf. destruct (image_wf_parts _ _ Hwf) as (H1 & H2 & H3 & H4 & H5 & H6 & H7).
+  apply redo_outs_ok; try assumption. apply fresh_lsn0_ok; assumption.
 Qed.
 
 (* ------------------------------------------------------------------ *)
@@ -1134,10 +1000,9 @@ Proof.
   rewrite (newpage_not_slot p s r En) in Hs. discriminate.
 Qed.
 
-Theorem committed_survive_if_undo_ok : forall l disk order p s pre r post,
-  image_wf l disk = true -> others_ok l = true -> loser_rollbacks_marked l = true ->
-  Permutation order (losers l) ->
-  forallb out_ok (undo_all_outs l order (redo l disk)) = true ->
+
+Theorem committed_survive : forall l disk order p s pre r post,
+  image_wf l disk = true -> Permutation order (losers l) ->
   l = pre ++ r :: post -> on_slot p s r = true ->
   existsb (fun r' => (l_txn r' =? l_txn r) && match l_kind r' with KCommit => true | _ => false end) l = true ->
   forallb (fun r' => negb (on_slot p s r') || memN (l_txn r') (losers l)) post = true ->
@@ -1145,35 +1010,31 @@ Theorem committed_survive_if_undo_ok : forall l disk order p s pre r post,
   page_val (recover l order disk) p s =
     slot_step (slot_val (filter (fun r' => negb (memN (l_txn r') (losers l))) pre) p s) (l_kind r).
 Proof.
-  intros l disk order p s pre r post Hwf Ho Hm Hperm Hok El Hs Hc H1 H2.
-  rewrite (recover_committed_if_undo_ok l disk order Hwf Ho Hm Hperm Hok).
+  intros l disk order p s pre r post Hwf Hperm El Hs Hc H1 H2.
+  rewrite (recover_committed l disk order Hwf Hperm).
   apply committed_val_survive with (post := post); assumption.
 Qed.
 
-Theorem losers_only_none_if_undo_ok : forall l disk order p s, image_wf l disk = true ->
-  others_ok l = true -> loser_rollbacks_marked l = true ->
+Theorem losers_only_none : forall l disk order p s, image_wf l disk = true ->
   Permutation order (losers l) ->
-  forallb out_ok (undo_all_outs l order (redo l disk)) = true ->
   forallb (fun r => negb (on_slot p s r) || memN (l_txn r) (losers l)) l = true ->
   page_val (recover l order disk) p s = None.
 Proof.
-  intros l disk order p s Hwf Ho Hm Hperm Hok H.
-  rewrite (recover_committed_if_undo_ok l disk order Hwf Ho Hm Hperm Hok).
+  intros l disk order p s Hwf Hperm H.
+  rewrite (recover_committed l disk order Hwf Hperm).
   apply committed_val_losers_only. exact H.
 Qed.
 
-Theorem loser_suffix_reverted_if_undo_ok : forall l disk order p s pre post, image_wf l disk = true ->
-  others_ok l = true -> loser_rollbacks_marked l = true ->
+Theorem loser_suffix_reverted : forall l disk order p s pre post, image_wf l disk = true ->
   Permutation order (losers l) ->
-  forallb out_ok (undo_all_outs l order (redo l disk)) = true ->
   l = pre ++ post ->
   forallb (fun r => negb (on_slot p s r) || memN (l_txn r) (losers l)) post = true ->
   forallb (fun r => match l_kind r with KNewPage _ p' => negb (p' =? p) | _ => true end) post = true ->
   page_val (recover l order disk) p s =
     slot_val (filter (fun r => negb (memN (l_txn r) (losers l))) pre) p s.
 Proof.
-  intros l disk order p s pre post Hwf Ho Hm Hperm Hok El H1 H2.
-  rewrite (recover_committed_if_undo_ok l disk order Hwf Ho Hm Hperm Hok).
+  intros l disk order p s pre post Hwf Hperm El H1 H2.
+  rewrite (recover_committed l disk order Hwf Hperm).
   apply committed_val_suffix with (post := post); assumption.
 Qed.
 
@@ -1183,33 +1044,20 @@ Qed.
 Lemma image_wf_other_disk l disk disk' : image_wf l disk = true -> disk_ok l disk' = true ->
   image_wf l disk' = true.
 Proof.
-  intros H Hd. destruct (image_wf_parts _ _ H) as (H1 & H2 & H3 & H4 & H5 & H6).
-  unfold image_wf. rewrite H1, H2, H3, H4, Hd, H6. reflexivity.
+  intros H Hd. destruct (image_wf_parts _ _ H) as (H1 & H2 & H3 & H4 & H5 & H6 & H7).
+  unfold image_wf. rewrite H1, H2, H3, H4, Hd, H6, H7. reflexivity.
 Qed.
 
-Theorem recover_any_image_if_undo_ok : forall l disk disk' order order',
+(** C20 [recover_interruptible_partial] *)
+Theorem recover_any_image : forall l disk disk' order order',
   image_wf l disk = true -> disk_ok l disk' = true ->
-  others_ok l = true -> loser_rollbacks_marked l = true ->
   Permutation order (losers l) -> Permutation order' (losers l) ->
-  forallb out_ok (undo_all_outs l order (redo l disk)) = true ->
-  forallb out_ok (undo_all_outs l order' (redo l disk')) = true ->
   forall p s, page_val (recover l order' disk') p s = page_val (recover l order disk) p s.
 Proof.
-  intros l disk disk' order order' Hwf Hd Ho Hm Hp Hp' Hok Hok' p s.
-  rewrite (recover_committed_if_undo_ok l disk order Hwf Ho Hm Hp Hok).
-  apply recover_committed_if_undo_ok; try assumption.
+  intros l disk disk' order order' Hwf Hd Hp Hp' p s.
+  rewrite (recover_committed l disk order Hwf Hp).
+  apply recover_committed; try assumption.
   eapply image_wf_other_disk; eassumption.
-Qed.
-
-Theorem recover_any_image_grow : forall l disk disk' order order',
-  image_wf l disk = true -> disk_ok l disk' = true ->
-  others_ok l = true -> loser_rollbacks_marked l = true -> loser_updates_grow l = true ->
-  Permutation order (losers l) -> Permutation order' (losers l) ->
-  forall p s, page_val (recover l order' disk') p s = page_val (recover l order disk) p s.
-Proof.
-  intros l disk disk' order order' Hwf Hd Ho Hm Hg Hp Hp' p s.
-  assert (Hwf' := image_wf_other_disk l disk disk' Hwf Hd).
-  apply recover_any_image_if_undo_ok; try assumption; apply undo_ok_grow; assumption.
 Qed.
 
 (** with the same undo order nothing beyond [log_ok], [fresh_pages_ok] and [disk_ok] is needed:
@@ -1228,12 +1076,13 @@ Proof.
   unfold undo_all. cbn [fold_left]. apply IH. apply peq_undo_chain. exact H.
 Qed.
 
+
 Theorem recover_any_image_same_order : forall l disk disk' order,
   log_ok l = true -> fresh_pages_ok l [] = true -> disk_ok l disk = true -> disk_ok l disk' = true ->
   forall p, get_page (recover l order disk') p = get_page (recover l order disk) p.
 Proof.
   intros l disk disk' order Hl Hf Hd Hd'. unfold recover. apply peq_undo_all. intros q.
-  rewrite (redo_repeats_fresh l disk' Hl Hf Hd'), (redo_repeats_fresh l disk Hl Hf Hd). reflexivity.
+  rewrite (redo_repeats l disk' Hl Hf Hd'), (redo_repeats l disk Hl Hf Hd). reflexivity.
 Qed.
 
 (** redo alone is idempotent, on any pages and for any log *)
@@ -1296,9 +1145,11 @@ Theorem redo_idem : forall l ps, redo l (redo l ps) = redo l ps.
 Proof. intros l ps. apply redo_noop. intros r p Hr Ep. apply redo_reach; assumption. Qed.
 
 (** C20 [redo_idempotent] (its hypotheses are not needed) *)
-Theorem redo_twice : forall l disk, log_ok l = true -> disk_ok l disk = true ->
+
+(** C20 [redo_idempotent] *)
+Theorem redo_twice : forall l disk,
   forall p, get_page (redo l (redo l disk)) p = get_page (redo l disk) p.
-Proof. intros l disk _ _ p. rewrite redo_idem. reflexivity. Qed.
+Proof. intros l disk p. rewrite redo_idem. reflexivity. Qed.
 
 (** C20 [completed_recovery_repeatable] *)
 Theorem recover_empty_iter : forall ps n, Nat.iter n (recover [] []) ps = ps.
@@ -1318,8 +1169,7 @@ Proof.
   apply Permutation_refl.
 Qed.
 
-(** C20 [redo_writes_keep_disk_ok], with the additional hypothesis [lsn0_ok] (implied by
-    [fresh_pages_ok l []]; false without it: see [redo_writes_counterexample]) *)
+(** towards C20 [redo_writes_keep_disk_ok]: the redo pass page by page *)
 Lemma redo_page_local q : forall l ps ps', get_page ps q = get_page ps' q ->
   get_page (redo l ps) q = get_page (redo l ps') q.
 Proof.
@@ -1416,7 +1266,9 @@ Proof.
   split; [apply in_seq; lia|]. rewrite <- E, N.eqb_refl, astate_beq_refl. reflexivity.
 Qed.
 
-Theorem redo_writes_ok_fresh : forall l disk written, log_ok l = true -> fresh_pages_ok l [] = true ->
+
+(** C20 [redo_writes_keep_disk_ok] (false without [fresh_pages_ok]: [redo_writes_counterexample]) *)
+Theorem redo_writes_ok : forall l disk written, log_ok l = true -> fresh_pages_ok l [] = true ->
   disk_ok l disk = true ->
   (forall p pg, In (p, pg) written -> exists k, (k <= length l)%nat /\ pg = get_page (redo (firstn k l) disk) p) ->
   disk_ok l (written ++ disk) = true.
@@ -1425,117 +1277,81 @@ Proof.
 Qed.
 
 (* ------------------------------------------------------------------ *)
-(** * Simple sufficient conditions for the additional hypotheses *)
+(** * Examples *)
 
-Lemma others_ok_no_other l : forallb (fun r => has_lsn (l_kind r)) l = true -> others_ok l = true.
-Proof.
-  intros H. unfold others_ok. rewrite forallb_forall in *. intros r Hr. rewrite (H r Hr). reflexivity.
-Qed.
-
-Lemma rollbacks_marked_no_rollback ls : forall l ps,
-  forallb (fun r => negb (memN (l_txn r) ls && match l_kind r with KRollback _ _ => true | _ => false end)) l = true ->
-  rollbacks_marked_from ls l ps = true.
-Proof.
-  induction l as [|r l IH]; intros ps H; [reflexivity|].
-  cbn [forallb] in H. apply andb_true_iff in H. destruct H as [H1 H2].
-  cbn [rollbacks_marked_from]. rewrite (IH _ H2), andb_true_r.
-  destruct (l_kind r); try reflexivity. rewrite andb_true_r in H1. rewrite H1. reflexivity.
-Qed.
-
-Lemma loser_rollbacks_marked_no_rollback l :
-  forallb (fun r => negb (memN (l_txn r) (losers l) && match l_kind r with KRollback _ _ => true | _ => false end)) l = true ->
-  loser_rollbacks_marked l = true.
-Proof. apply rollbacks_marked_no_rollback. Qed.
-
-(* ------------------------------------------------------------------ *)
-(** * Counterexamples to the statements with [image_wf] / [log_ok] alone *)
-
-(** [redo_repeats] (C01 [redo_repeats_history]) fails when the first record of a page has LSN 0
+(** Without [fresh_pages_ok], [redo_repeats] fails when the first record of a page has LSN 0
     and is not the page's creation: redo skips it (a never-written page has LSN 0). *)
 Example redo_repeats_counterexample :
   let l := [mkR 0 1 None (KInsert 5 0 [1])] in
-  log_ok l = true /\ disk_ok l [] = true /\
+  log_ok l = true /\ disk_ok l [] = true /\ fresh_pages_ok l [] = false /\
   get_page (redo l []) 5 = mkAP 0 [] /\ get_page (replay l []) 5 = mkAP 0 [Some ([1], false)].
 Proof. vm_compute. repeat split. Qed.
 
-(** the same log refutes C20 [redo_writes_keep_disk_ok]: the page written after the
-    whole redo pass is not a prefix state *)
+(** ... and so does [redo_writes_ok]: the page written after the whole redo pass is not a prefix state *)
 Example redo_writes_counterexample :
   let l := [mkR 0 1 None (KInsert 5 0 [1]); mkR 1 1 (Some 0) (KInsert 5 1 [2])] in
-  log_ok l = true /\ disk_ok l [] = true /\
+  log_ok l = true /\ disk_ok l [] = true /\ fresh_pages_ok l [] = false /\
   disk_ok l ([(5, get_page (redo (firstn 2 l) []) 5)] ++ []) = false.
 Proof. vm_compute. repeat split. Qed.
 
-(** [recover_committed]: a [KOther] record whose LSN field collides with the LSN of an
-    unfinished transaction's record hides that record from the undo walk *)
-Example recover_committed_counterexample_other :
-  let l := [mkR 5 9 None KOther; mkR 0 1 None KBegin; mkR 1 1 (Some 0) (KNewPage 0 5); mkR 2 1 (Some 1) KCommit;
-            mkR 4 3 None KBegin; mkR 5 3 (Some 4) (KInsert 5 0 [8;8])] in
-  image_wf l [] = true /\ losers l = [3] /\ forallb out_ok (recover_outs l [3] []) = true /\
-  page_val (recover l [3] []) 5 0 = Some ([8;8], false) /\ committed_val l 5 0 = None /\
-  others_ok l = false.
-Proof. vm_compute. repeat split. Qed.
-
-(** [recover_committed]: [rec_ok] lets a ROLLBACKDELETE record act on a row that is not
-    delete-marked; its undo (MarkDelete) then leaves the committed row marked *)
-Example recover_committed_counterexample_rollback :
+(** The refinements of the model that closed the gaps found while proving the theorems.
+    (1) A ROLLBACKDELETE record on a row that is not delete-marked no longer replays
+        (its undo would have left the committed row marked). *)
+Example rollback_unmarked_not_wf :
   let l := [mkR 0 1 None KBegin; mkR 1 1 (Some 0) (KNewPage 0 5); mkR 2 1 (Some 1) (KInsert 5 0 [1;2;3]);
             mkR 3 1 (Some 2) KCommit; mkR 4 3 None KBegin; mkR 5 3 (Some 4) (KRollback 5 0)] in
-  image_wf l [] = true /\ losers l = [3] /\ forallb out_ok (recover_outs l [3] []) = true /\
-  page_val (recover l [3] []) 5 0 = Some ([1;2;3], true) /\ committed_val l 5 0 = Some ([1;2;3], false) /\
-  loser_rollbacks_marked l = false.
-Proof. vm_compute. repeat split. Qed.
+  log_ok l = false.
+Proof. vm_compute. reflexivity. Qed.
 
-(** [recover_committed] and [restart_ok]: an unfinished transaction shrank a row, a committed
-    transaction used the freed space, the undo of the update does not fit *)
-Example recover_committed_counterexample_space :
+(** (2) An unfinished shrinking update is excluded by [loser_updates_grow] (part of [image_wf]): here a
+        committed transaction used the freed space and the undo of the update does not fit. *)
+Example shrinking_loser_update_not_wf :
   let big := repeat 1 2000 in
   let l := [mkR 0 1 None KBegin; mkR 1 1 (Some 0) (KNewPage 0 5); mkR 2 1 (Some 1) (KInsert 5 0 big);
             mkR 3 1 (Some 2) (KInsert 5 1 big); mkR 4 1 (Some 3) KCommit;
             mkR 5 3 None KBegin; mkR 6 3 (Some 5) (KUpdate 5 0 big [7]);
             mkR 7 2 None KBegin; mkR 8 2 (Some 7) (KInsert 5 2 big); mkR 9 2 (Some 8) KCommit] in
-  image_wf l [] = true /\ losers l = [3] /\ others_ok l = true /\ loser_rollbacks_marked l = true /\
-  forallb out_ok (recover_outs l [3] []) = false /\
-  page_val (recover l [3] []) 5 0 = Some ([7], false) /\ committed_val l 5 0 = Some (big, false) /\
-  loser_updates_grow l = false.
+  loser_updates_grow l = false /\ image_wf l [] = false /\
+  forallb out_ok (recover_outs l [3] []) = false.
 Proof. vm_compute. repeat split. Qed.
 
-(** the additional hypotheses hold on the non-vacuity images of Props/C01.v, C02.v, C20.v *)
-Example extra_hyps_c01 :
-  let l := [ mkR 0 1 None KBegin; mkR 1 1 (Some 0) (KNewPage 0 5); mkR 2 1 (Some 1) (KInsert 5 0 [1;2;3]);
-             mkR 3 1 (Some 2) KCommit;
-             mkR 4 2 None KBegin; mkR 5 2 (Some 4) (KUpdate 5 0 [1;2;3] [9;9;9;9]); mkR 6 2 (Some 5) (KInsert 5 1 [7]);
-             mkR 7 2 (Some 6) KCommit;
-             mkR 8 3 None KBegin; mkR 9 3 (Some 8) (KInsert 5 2 [8;8]);
-             mkR 10 4 None KBegin; mkR 11 4 (Some 10) (KMark 5 1); mkR 12 4 (Some 11) (KApply 5 1 [7]); mkR 13 4 (Some 12) KCommit ] in
-  others_ok l = true /\ loser_rollbacks_marked l = true /\ loser_updates_grow l = true.
+(** (3) [find_lsn] only finds LSN-carrying records: a [KOther] record whose LSN field collides with a
+        record of an unfinished transaction is harmless. *)
+Example other_lsn_collision_harmless :
+  let l := [mkR 5 9 None KOther; mkR 0 1 None KBegin; mkR 1 1 (Some 0) (KNewPage 0 5); mkR 2 1 (Some 1) KCommit;
+            mkR 4 3 None KBegin; mkR 5 3 (Some 4) (KInsert 5 0 [8;8])] in
+  image_wf l [] = true /\ losers l = [3] /\
+  page_val (recover l [3] []) 5 0 = None /\ committed_val l 5 0 = None.
 Proof. vm_compute. repeat split. Qed.
 
-Example extra_hyps_c02 :
-  let l := [ mkR 0 1 None KBegin; mkR 1 1 (Some 0) (KNewPage 0 5); mkR 2 1 (Some 1) (KInsert 5 0 [1;2;3]);
-             mkR 3 1 (Some 2) KCommit;
-             mkR 4 2 None KBegin; mkR 5 2 (Some 4) (KUpdate 5 0 [1;2;3] [4;4;4;4]); mkR 6 2 (Some 5) (KInsert 5 1 [7]);
-             mkR 7 2 (Some 6) (KApply 5 1 [7]); mkR 8 2 (Some 7) (KUpdate 5 0 [4;4;4;4] [1;2;3]); mkR 9 2 (Some 8) KAbort;
-             mkR 10 3 None KBegin; mkR 11 3 (Some 10) (KMark 5 0) ] in
-  others_ok l = true /\ loser_rollbacks_marked l = true /\ loser_updates_grow l = true.
+(** (4) [last_of] ignores [KOther] records: one that carries an unfinished transaction's id no longer
+        sends the undo walk astray (three images that used to refute [recover_committed],
+        [restart_ok] and [recover_any_image]). *)
+Example other_txn_harmless_1 :
+  let l := [mkR 0 1 None KBegin; mkR 1 1 (Some 0) (KNewPage 0 5); mkR 2 1 (Some 1) (KInsert 5 0 [1;2;3]);
+            mkR 3 1 (Some 2) KCommit; mkR 4 3 None KBegin; mkR 5 3 (Some 4) (KInsert 5 1 [8;8]);
+            mkR 2 3 None KOther] in
+  image_wf l [] = true /\ losers l = [3] /\
+  map (page_val (recover l [3] []) 5) [0; 1] = [Some ([1;2;3], false); None] /\
+  map (committed_val l 5) [0; 1] = [Some ([1;2;3], false); None].
 Proof. vm_compute. repeat split. Qed.
 
-Example extra_hyps_c20 :
-  let l := [ mkR 0 1 None KBegin; mkR 1 1 (Some 0) (KNewPage 0 5); mkR 2 1 (Some 1) (KInsert 5 0 [1;2;3]);
-             mkR 3 1 (Some 2) KCommit; mkR 4 3 None KBegin; mkR 5 3 (Some 4) (KInsert 5 1 [8;8]) ] in
-  others_ok l = true /\ loser_rollbacks_marked l = true /\ loser_updates_grow l = true.
+Example other_txn_harmless_2 :
+  let l := [mkR 0 1 None KBegin; mkR 1 1 (Some 0) (KNewPage 0 5); mkR 2 1 (Some 1) (KInsert 5 0 [1;2;3]);
+            mkR 3 1 (Some 2) KCommit;
+            mkR 4 4 None KBegin; mkR 5 4 (Some 4) (KMark 5 0); mkR 6 4 (Some 5) (KApply 5 0 [1;2;3]); mkR 7 4 (Some 6) KCommit;
+            mkR 8 3 None KBegin; mkR 5 3 None KOther] in
+  image_wf l [] = true /\ losers l = [3] /\
+  forallb out_ok (recover_outs l [3] []) = true.
 Proof. vm_compute. repeat split. Qed.
 
-(** [recover_any_image] (C20 [recover_interruptible_partial]): with two unfinished transactions on a
-    full page the result depends on the undo order (undoing the insert first makes room for the
-    undo of the shrinking update) *)
-Example recover_any_image_counterexample :
-  let big := repeat 1 2000 in
-  let l := [mkR 0 1 None KBegin; mkR 1 1 (Some 0) (KNewPage 0 5); mkR 2 1 (Some 1) (KInsert 5 0 big);
-            mkR 3 1 (Some 2) (KInsert 5 1 big); mkR 4 1 (Some 3) KCommit;
-            mkR 5 3 None KBegin; mkR 6 3 (Some 5) (KUpdate 5 0 big [7]);
-            mkR 7 4 None KBegin; mkR 8 4 (Some 7) (KInsert 5 2 big)] in
+Example other_txn_harmless_3 :
+  let l := [mkR 0 1 None KBegin; mkR 1 1 (Some 0) (KNewPage 0 5); mkR 2 1 (Some 1) (KInsert 5 0 [1]);
+            mkR 3 1 (Some 2) KCommit;
+            mkR 4 2 None KBegin; mkR 5 2 (Some 4) (KUpdate 5 0 [1] [2]); mkR 6 2 (Some 5) KCommit;
+            mkR 7 3 None KBegin; mkR 8 3 (Some 7) (KUpdate 5 0 [2] [3]);
+            mkR 9 4 None KBegin; mkR 5 4 None KOther] in
   image_wf l [] = true /\ losers l = [3; 4] /\
-  page_val (recover l [3; 4] []) 5 0 = Some ([7], false) /\
-  page_val (recover l [4; 3] []) 5 0 = Some (big, false).
+  page_val (recover l [3; 4] []) 5 0 = Some ([2], false) /\
+  page_val (recover l [4; 3] []) 5 0 = Some ([2], false).
 Proof. vm_compute. repeat split. Qed.
